@@ -308,3 +308,75 @@ def transitions_per_cache_period(tuples):
             p = (t[0] // DAY_NS) >> 5
             c[p] = c.get(p, 0) + 1
     return {p: n for p, n in c.items() if n >= 2}
+
+
+# ---- watchdog: a library call that never returns must become a finding, not a hung checker -------------
+
+import contextlib  # noqa: E402
+import multiprocessing as _mp  # noqa: E402
+import signal  # noqa: E402
+import traceback as _tb  # noqa: E402
+
+_HANGS = _mp.Value("i", 0)        # shared with forked workers
+
+
+class Hang(BaseException):
+    """raised by the CPU-time watchdog inside whatever code is running (BaseException: passes `except Exception`)"""
+
+    def __init__(self, seconds, where):
+        super().__init__("no result after %d s of CPU time" % seconds)
+        self.seconds = seconds
+        self.where = where
+
+
+def _lib_site(frame):
+    site = "?"
+    stack = _tb.extract_stack(frame)
+    for fr in stack:
+        fn = fr.filename.replace("\\", "/")
+        if "/pyoda_time/" in fn:
+            site = "%s:%s" % (os.path.basename(fn), fr.name)
+    return site, ["%s:%d %s" % (os.path.basename(fr.filename), fr.lineno, fr.name) for fr in stack[-8:]]
+
+
+@contextlib.contextmanager
+def cpu_limit(seconds):
+    """Limit the CPU time (user mode, this process only - independent of machine load) of the enclosed block.
+    After three blocks anywhere in the run have hit their limit, later blocks get a quarter of it."""
+    if _HANGS.value >= 3:
+        seconds = max(8, seconds // 4)
+
+    def handler(sig, frame):
+        raise Hang(seconds, _lib_site(frame))
+
+    try:
+        old = signal.signal(signal.SIGVTALRM, handler)
+    except ValueError:          # not in the main thread: no watchdog available
+        yield
+        return
+    signal.setitimer(signal.ITIMER_VIRTUAL, seconds)
+    try:
+        yield
+    except Hang:
+        with _HANGS.get_lock():
+            _HANGS.value += 1
+        raise
+    finally:
+        signal.setitimer(signal.ITIMER_VIRTUAL, 0)
+        signal.signal(signal.SIGVTALRM, old)
+
+
+def too_many_hangs(acc, limit=6):
+    """after `limit` watchdog hits anywhere in the run the remaining work items are skipped (recorded as a cap)"""
+    if _HANGS.value >= limit:
+        acc.cap("work items skipped after %d library calls did not terminate" % limit)
+        acc.outcome("skipped-after-repeated-non-termination")
+        return True
+    return False
+
+
+def hang_violation(acc, prop, zid, h, case=None):
+    site, stack = h.where
+    acc.violation("%s/no-termination/%s" % (prop, zid),
+                  "library call did not return within %d s of CPU time (normally milliseconds); innermost library frame %s" % (h.seconds, site),
+                  {"zone": zid, "stack": stack, "case": case})
